@@ -29,8 +29,11 @@ SPEC = dict(
              'c06_src_snake_depth_exact (root depth exactly the closed form, end_cell iff <= 1023, regenerated load gives the bytes back) and c06_src_snake_roundtrip '
              '(depth <= 1023: store, end_cell, begin_parse, load_snake_bytes = the bytes; beyond: no cell comes out) are theorems about the regenerated code; '
              'c06_src_preload_ref_offset: preload_ref(offset) for every offset. '
-             'Still hand model + differential testing: the str / TvmBitarray / iterable argument forms of store_bit / store_bits, '
-             'store_address(str) (Address(str) parsing), the HashMap parse behind load_dict (C09). Seeded scripts run on the library and on the compiled model, and '
+             'THE ARGUMENT FORMS: store_bit at bool / str / TvmBitarray / plain bitarray / list and store_bits at str / list or tuple of ints / plain bitarray / iterator, and store_address(str), '
+             'are regenerated as well (Generated/ArgForms.lean); c06_src_store_bits_forms states for all arguments and builders what each form accepts, refuses and stores '
+             '(int(text) must be 0 or 1; a text of 0 / 1 / whitespace / underscore with the capacity test on len(text); items 0 / 1; an iterator is always refused; store_bit of a plain bitarray or a list '
+             'returns and stores NOTHING - recorded as an observation), c06_src_store_address_forms: store_address(text) = Address(text) (declared interface function, a parameter) then exactly the Address form. '
+             'Still hand model + differential testing: Address(str) parsing itself (C15), the HashMap parse behind load_dict (C09). Seeded scripts run on the library and on the compiled model, and '
              'each script is also checked on the library alone against an independent Python TL-B encoder, peek/load round trip and leftovers.',
         level_note='Proved for all inputs: the statements above, about Model/Builder.lean, and the equality of the regenerated methods with that model. Trusted for the '
                    'regenerated part: the translator pymeth.py (+ pyobj/pybytes/pyarith expression rules), the declared interface in harness/translate/bsops.py (attribute types, '
@@ -39,7 +42,8 @@ SPEC = dict(
                    'slice deletion / append; for the snake methods also Py.forL / whileS / bindA / rangeStep and the declared reading of <cell>.begin_parse() as `view`, '
                    'of end_cell\'s Cell(..) as the parameter `mk`, of a None passed where a cell is declared as a raise, and the iteration bound `fuel`); '
                    'all validated on every change by Lean evaluation of the regenerated methods = the library on ~650 op scripts. Only sampled: that the '
-                   'remaining forms (argument forms of store_bit / store_bits, Address(str)) behave as the model (correspondence on generated scripts; str.encode/decode are '
+                   'Address(str) parser behaves as the model (C15; correspondence on generated scripts). Trusted readings for the argument forms: Py.intOfStr? (int(text)), Py.bitsOfStr? / bitsOfInts? '
+                   '(bitarray.extend of a text / of ints), Py.strLen, for ASCII text (non-ASCII whitespace / digits are outside the model), validated against CPython on 52 scripts; str.encode/decode are '
                    'assumed as modelled). Not modelled: load_dict parses the referenced HashMap (C09), str<->UTF-8, Python recursion limit for very '
                    'long snake chains. Trusted: Spec/TlbPrim.lean + Spec/TlbVal.lean say what TL-B says; Lean kernel; harness/gen/scripts.py.',
         technique='Lean 4 proof (hand model, OpSpec calculus + closed forms of the slice reads) + differential correspondence with the library '
@@ -47,7 +51,8 @@ SPEC = dict(
     translators=[('builder.py var-int byte lengths->Generated/VarLen.lean', arith.regenerator('VarLen')),
                  ('builder.py/tvm_bitarray.py store_* methods->Generated/BuilderOps.lean', bsops.regenerator('BuilderOps')),
                  ('slice.py/tvm_bitarray.py load_*/preload_* methods->Generated/SliceOps.lean', bsops.regenerator('SliceOps')),
-                 ('builder.py/slice.py snake methods->Generated/SnakeOps.lean', bsops.regenerator('SnakeOps'))],
+                 ('builder.py/slice.py snake methods->Generated/SnakeOps.lean', bsops.regenerator('SnakeOps')),
+                 ('builder.py store_bit/store_bits/store_address argument forms->Generated/ArgForms.lean', bsops.regenerator('ArgForms'))],
     design_ref='DESIGN.md §6 C06',
     rule='seeded sequences of typed values that fit a cell (ints of widths 1..257 at 0/1/max/top-bit/min/-1, var-ints of every byte-length '
          'class incl. top-bit-set values, coins, bits, bytes, refs, maybe-refs, addr_none/extern(len 0..511)/std(+anycast)), snake byte strings '
@@ -275,6 +280,23 @@ def src_search_snake(ctx):
     return len(ctx.failures) > n0
 
 
+def src_search_forms(ctx):
+    """Search mode only: every argument form of store_bit / store_bits (the executor rotates them with process-wide counters) at an empty
+    builder and at the capacity boundary, and store_address(str), through the round-trip oracle.  True = a failing input was found."""
+    n0 = len(ctx.failures)
+    dag = [tuple(n) for n in bsops.CTX_DAG]
+    cells = G.lib_build(dag)
+    for form in range(24):
+        for pre in (0, 1017):
+            S._BIT_FORM[0] = form
+            S._BITS_FORM[0] = form
+            check_roundtrip(ctx, dag, cells, ([f'b:{"0" * pre}'] if pre else []) + ['bit:1', 'b:0110', 'bit:0'], 'src-forms')
+        if len(ctx.failures) > n0:
+            return True
+    api_extras(ctx)
+    return len(ctx.failures) > n0
+
+
 def snake_string(ctx, n, pre, prefill):
     rng = ctx.rng
     text = ''.join(rng.choice(S.STRING_ALPHABET) for _ in range(n))
@@ -320,6 +342,17 @@ def api_extras(ctx):
         if outs[0][1] != outs[1][1]:
             ctx.fail('preload-vs-load:address-tag-11', 'preload_address and load_address disagree on an unsupported address constructor (one raises, the other returns)',
                      {'bits': '11' + tail}, outs[1], outs[0])
+    # store_bit of a TvmBitarray holding more / fewer than one bit: exactly its first bit (c06_src_store_bits_forms)
+    from pytoniq_core.boc.tvm_bitarray import TvmBitarray
+    from bitarray import bitarray
+    for arg in ('10', '01', '111', ''):
+        ctx.case(('bit-tvm', arg))
+        try:
+            got = begin_cell().store_bit(TvmBitarray(1023, bitarray(arg))).bits.to01()
+        except Exception as e:
+            got = type(e).__name__
+        if got != arg[:1]:
+            ctx.fail('bits:bit', f'store_bit(TvmBitarray({arg!r})) did not store exactly the first bit', {'form': 'tvm', 'arg': arg}, got, arg[:1])
     for s in ['', 'a', 'héllo wörld', '日本語' * 10, 'x' * 127, 'é' * 63]:
         ctx.case(('string', s))
         try:
@@ -440,7 +473,7 @@ def src_search_methods(ctx):
 def run(ctx):
     rng = ctx.rng
     cells = G.lib_build(LEAF_DAG)
-    if ctx.search and (src_search(ctx, cells) or src_search_methods(ctx) or src_search_snake(ctx)):
+    if ctx.search and (src_search(ctx, cells) or src_search_methods(ctx) or src_search_snake(ctx) or src_search_forms(ctx)):
         return
     # context with a real dictionary cell (HashMap(8), 3 entries) for store_dict / load_dict / preload_dict
     ddag = LEAF_DAG + S.shift_dag(S.dict_dag(), len(LEAF_DAG))
@@ -515,6 +548,8 @@ def replay(ctx, payload):
             S._BIT_FORM[0] = form
             S._BITS_FORM[0] = form
             check_roundtrip(ctx, dag, G.lib_build(dag), inp['ops'], inp.get('tag', 'replay'))
+    elif 'form' in inp or 'addr' in inp or 's' in inp or 'bits' in inp or 'n' in inp:
+        api_extras(ctx)
     elif 'len' in inp and 'prefill' in inp and 'refs' in inp:
         snake_refs(ctx, int(inp['len']), int(inp['prefill']), int(inp['refs']))
     elif 'len' in inp and 'prefill' in inp:
